@@ -1298,6 +1298,11 @@ class MessageRouter:
                 raise QMI_UnknownNameException("Unknown message handler {}".format(message_handler.address))
             del self._address_to_messagehandler_map[object_id]
 
+    def get_message_handlers(self) -> List[QMI_MessageHandler]:
+        """Return a list of the currently registered message handlers."""
+        with self._address_to_messagehandler_map_lock:
+            return list(self._address_to_messagehandler_map.values())
+
     def start_tcp_server(self, tcp_server_port: int) -> None:
         """Start TCP server for incoming connections from remote contexts.
 
